@@ -210,7 +210,7 @@ pub(crate) mod kani_verif {
             ArrayVec::from_array_len(self.check(), 32)
         }
     }
-    // @h name=c08_ots_private_n32_w1_idx props=C08,C09,C01 tier=quick kind=proved cfg=default timeout=900 funcs=lm_ots::keygen::generate_private_key contract="n=32, w=1 (p=265, the only set with more than 256 chains): hash call k absorbs exactly I || q || u16(k) || 0xff || seed for k = 0..264 and x_k is the k-th output; every I/q/seed; checking hash (layout checked at every finalisation)"
+    // @h name=c08_ots_private_n32_w1_idx props=C08,C09,C01 tier=quick kind=bounded cfg=default timeout=1200 funcs=lm_ots::keygen::generate_private_key note="one concrete (I, q, seed); all 265 chain indices" contract="n=32, w=1 (p=265, the only set with more than 256 chains): hash call k absorbs exactly I || q || u16(k) || 0xff || seed for k = 0..264 and x_k is the k-th output; checking hash (layout checked at every finalisation)"
     #[kani::proof]
     #[kani::stub(zeroize::optimization_barrier, no_barrier)]
     #[kani::stub(<[u8; 32] as tinyvec::Array>::default, fast_default)]
@@ -219,10 +219,20 @@ pub(crate) mod kani_verif {
         CK_CALLS.store(0, Ordering::Relaxed);
         CK_BAD.store(0, Ordering::Relaxed);
         let p = alg(1).construct_parameter::<CheckHash32>().unwrap();
-        let id: [u8; 16] = kani::any();
-        let q: [u8; 4] = kani::any();
-        let sb: [u8; 32] = kani::any();
+        // concrete (I, q, seed): with symbolic values CBMC needed > 17 GB for the 265 calls; how the pre-image depends on
+        // I / q / seed is the subject of c08_ots_private_n16_w8 (symbolic) and of the Verus unit v6_keygen (unbounded)
+        let mut id = [0u8; 16];
+        let q: [u8; 4] = [0x00, 0x01, 0xfe, 0x7f];
+        let mut sb = [0u8; 32];
         let mut i = 0;
+        while i < 32 {
+            sb[i] = (i as u8).wrapping_mul(37) ^ 0xc3;
+            if i < 16 {
+                id[i] = (i as u8).wrapping_mul(11) ^ 0x5a;
+            }
+            i += 1;
+        }
+        i = 0;
         while i < 16 {
             CK_EXPECT[i].store(id[i], Ordering::Relaxed);
             i += 1;
